@@ -335,6 +335,26 @@ func buildOpPool() []poolOp {
 			return opResult{Text: fmt.Sprintf("err=%v panic=%s files=%d %s", res.Err, res.Panic, len(res.Files), sb.String())}
 		}},
 	)
+	// strings longer than the profile length in two Files of the same message kinds (the encoder must size them per
+	// call, not by adjusting shared tables)
+	longStrings := func(n int) func() *fit.File {
+		return func() *fit.File {
+			f, _ := fit.NewFile(fit.FileTypeActivity, fit.NewHeader(fit.V20, true))
+			a, _ := f.Activity()
+			s := fit.NewSessionMsg()
+			s.OpponentName = strings.Repeat("opponent ", n)
+			s.SportProfileName = strings.Repeat("profile-", n+1)
+			a.Sessions = append(a.Sessions, s)
+			sp := fit.NewSportMsg()
+			sp.Name = strings.Repeat("n", 7*n)
+			a.Sport = sp
+			return f
+		}
+	}
+	pool = append(pool,
+		encodeOp("Encode(strings longer than their profile length, 2 repeats)", longStrings(2), false),
+		encodeOp("Encode(strings longer than their profile length, 5 repeats)", longStrings(5), true),
+	)
 	// the checksum package on its own (lazily built tables and shared scratch state would live there)
 	pool = append(pool,
 		poolOp{Name: "dyncrc16.Checksum(4096 bytes)", Run: func(env opEnv) opResult {
